@@ -110,7 +110,7 @@ def random_large_cases(rng, n, max_levels=6, max_leaves=40, max_cells=300):
         spec['n_leaves'] = k
         spec['seed'] = int(rng.integers(0, 2 ** 31))
         if rng.random() < 0.3:
-            spec['n_cells'] = int(rng.integers(41, max_cells + 1))
+            spec["n_cells"] = int(rng.integers(min(41, max_cells), max_cells + 1))
             spec['chunk_size'] = int(rng.choice([10, 37, 100, 1000]))
         spec['n_genes'] = int(rng.integers(10, 80))
         r = rng.random()
